@@ -579,7 +579,7 @@ RECIPES = {
         "oracles": ["C07."],
         "rule": "one run = 5 seeded operations among: reseed experiment (same seed => identical exported secret key set and ciphertexts, on the same "
                 "or another thread, after a history of 0..7 extra encryptions i.e. odd and even numbers of Gaussian draws; another seed => "
-                "different), fresh LWE/TLWE/TGSW/gate encryptions over an alpha sweep 2^-30..2^-5, statistics of EVERY row of a freshly generated "
+                "different), fresh LWE/TLWE/TGSW/gate encryptions over an alpha sweep 2^-30..2^-5, sequences that mix up to three noise levels (alternating, random, odd-length blocks, interspersed direct draws; every sample judged against the level it was requested with, a single draw beyond 12 sigma is a violation), statistics of EVERY row of a freshly generated "
                 "key-switching and bootstrapping key (a new key per run), key-bit balance; the entropy/time watchdog brackets every call. "
                 "Sums are merged over runs and judged on >= 5000 values. non-trivial = every run",
         "technique": "deterministic simulation of the randomness seam (the library's single seedable generator): reseed-and-replay experiments with "
@@ -687,7 +687,7 @@ RECIPES = {
         "rule": "one run = one (parameter set, key seed, transport, write chunking): the cloud key export is captured by a write recorder (every "
                 "byte of every write call), measured against the size the parameters determine, compared with the secret key set export "
                 "(strict prefix) and searched for every encoding of the LWE key and of ring-key windows (int32, bytes, ASCII, packed bits both "
-                "orders; only non-degenerate patterns >= 16 bytes); then imported and used. All runs count as non-trivial; distinct = hash of "
+                "orders; only non-degenerate patterns >= 16 bytes); then imported and used. Histories: secret material exported before the cloud key, a second writer open at the same time, or (overlap 4..6) a secret export running in ANOTHER simulated task while this one exports the cloud key, every write call reaching a store being a scheduling point of the seeded scheduler. All runs count as non-trivial; distinct = hash of "
                 "(spec, key seed, transport, chunk seed)",
         "technique": "deterministic simulation of the export path with a write recorder on both transports; history check over the recorded bytes",
         "level_text": "Seeded exploration over keys, parameter sets (both defaults plus small sets), transports and chunkings; exact-size, "
